@@ -190,6 +190,7 @@ impl<T: Abs + Encode<()> + CborLen<()> + for<'b> Decode<'b, ()>> Full for T {}
 /// Decode `bytes` as T and report value, position, the re-encoding of the decoded value and its computed length.
 pub fn decode_report<T: Full>(b: &[u8]) -> Value {
     let mut d = minicbor::Decoder::new(b);
+    crate::alloc::set_case("typed-decode", core::any::type_name::<T>(), b);
     crate::alloc::reset();
     let r: Result<T, _> = d.decode();
     let alloc = crate::alloc::total();
